@@ -10,7 +10,7 @@ def _nontrivial(line):
 CFG = dict(
     rule="histories of RegisterConn / DropConn / VerifRegisterService on a fresh Mux over 4 real loopback backends "
          "(grpc.Server + grpc-go's reflection service over a switchable descriptor set, catch-all handler tagging its "
-         "replies) and 2 local implementations; alphabet of 13 operations (3 connections x overlapping / disjoint / changed / "
+         "replies) and 2 local implementations; alphabet of 15 operations (3 connections x overlapping / disjoint / changed / "
          "conflicting / invalid descriptor sets, drops incl. a never-registered connection, 2 local services); ALL histories "
          "of length <= 3 (quick) or <= 4 (thorough) + seeded random histories of length 4..12. After every step each of 7 "
          "methods is requested over gRPC and each of 13 HTTP bindings over HTTP transcoding (in-process ServeHTTP, the proxied "
@@ -26,10 +26,12 @@ CFG = dict(
         "route completeness for descriptor sets that disagree on a method's rules is C19's R9 and not claimed here",
     ],
     trusted=[
-        "the routing trie is abstract in Model/Registry.v (finite map binding key -> method name with addRule's duplicate check incl. the '*' fall-back, delRule removing every binding); "
+        "the routing trie is abstract in Model/Registry.v (finite map binding key -> method name with addRule's duplicate check as in rules.go (the node's '*' binding and, for a '*' key, every verb binding of the node), delRule removing every binding; proved to be refined by the concrete trie: Proofs/RefineProofs.v); "
         "lexer, variables and path search are other properties' models; the harness maps templates to keys by a fixed catalogue",
         "grpc-go client/server, its reflection service and httptest.ResponseRecorder as the client-side view",
         "VerifFingerprint is read only to budget the number of repeats per probe (never to decide)",
     ],
     timeout=900,
 )
+
+CFG["rule"] += " Besides the alphabet: descriptor set 9 ('*'-kind rules: one on another method's GET node, one '*' + GET pair of a single method; probed with DELETE and POST), set 10 (a service whose streaming method cannot be bound after its unary method was handled), set 11 (SvcA redeployed without one method: same service names, another method set), each in histories with every operation of the alphabet before / between / after, plus random histories over the extended alphabet."
